@@ -932,6 +932,16 @@ BUILTINS = {
 }
 
 
+def _open(I, path, mode="r", **kw):
+    for p in I.ctx.plugins:
+        if hasattr(p, "open_file"):
+            return p.open_file(I, path, mode, **kw)
+    raise Unsupported("open()")
+
+
+BUILTINS["open"] = _open
+
+
 def builtin(I, name):
     if name in BUILTINS:
         return PBuiltin(name, BUILTINS[name])
